@@ -24,7 +24,7 @@ ASSUMPTIONS = [
 
 def strategy(tier):
     # thorough tier: programs of up to 100 ops (quick: 40)
-    return gen.cases(dict(PROFILE, maxlen=100, long=60) if tier == "thorough" else PROFILE)
+    return gen.cases(dict(PROFILE, maxlen=100, long=15) if tier == "thorough" else PROFILE)
 
 
 def run_case(case, strict=False):  # pylint: disable=unused-argument
